@@ -1,5 +1,6 @@
 import ComposeVerif.Props.C06Env
 import ComposeVerif.Props.C06Anchor
+import ComposeVerif.Props.C06Resolve
 /-!
 # C06 — the property in one statement (composition of the clause theorems)
 
@@ -106,5 +107,78 @@ example :
           (.map [("services", .map [("a", .map [("image", .str "a")]), ("b", .map [("image", .str "from-dotenv")])])])
       | _ => false) = true := by
   refine ⟨rfl, by decide +kernel, by decide +kernel⟩
+
+/-! ## round 6: the included branch of `loadYamlModel` inside the property
+
+A world whose sub-load ends, like `loadYamlModel` for an included model, with `resolveModelEnv true` on the environment it
+was given (`IncludedBranchWorld`; the executable world is one: `loadYaml_is_included_branch`). -/
+
+/-- the sub-load is some load `pre` followed by the last statement of `loadYamlModel` for an included model -/
+def IncludedBranchWorld (W : World) (pre : String → String → List String → Env → List String → Out KVs) : Prop :=
+  ∀ relwd pd paths env' chain,
+    W.loadModel relwd pd paths env' chain = (pre relwd pd paths env' chain).bind fun d => .ok (resolveModelEnv true env' d)
+
+/-- what the resolvers did to one included model `im`, against the same project loaded on its own (`resolveModelEnv false`
+of the same pre-model `d` under the same environment `env'`, which extends the including environment `env`) -/
+def ResolvedAsOnItsOwn (env : Env) (im : KVs) : Prop :=
+  ∃ env' d, Extends env' env ∧ im = resolveModelEnv true env' d ∧
+    (∀ k, k ≠ "configs" → lookup k im = lookup k (resolveModelEnv false env' d)) ∧
+    resolvedSection (resolveSource secretCarrier env) (lookup "secrets" im) = lookup "secrets" (resolveModelEnv false env' d) ∧
+    (NoEqNames env →
+      resolvedSection (resolveService env) (lookup "services" im) = lookup "services" (resolveModelEnv false env' d)) ∧
+    lookup "configs" im = lookup "configs" d
+
+theorem loadedOnItsOwn_resolved {W : World} {E : EnvWorld C} {pre} (hR : IncludedBranchWorld W pre)
+    {L : String} {env : Env} {chain : List String} {r : IncCfg} {im : KVs}
+    (h : LoadedOnItsOwn W E L env chain r im) : ResolvedAsOnItsOwn env im := by
+  obtain ⟨pl, env', efs, ff, es, _, _, _, _, _, _, hget, hl⟩ := h.ex
+  have hx : Extends env' env := by
+    intro k v hk
+    rw [hget k, hk]
+  rw [hR] at hl
+  obtain ⟨d, _, hd⟩ := bind_eq_ok hl
+  cases hd
+  exact ⟨env', d, hx, rfl, fun k hk => included_branch_eq_own_except_configs env' d hk,
+    included_secret_survives_parent hx d, fun hn => included_service_survives_parent hx hn d,
+    included_branch_configs_untouched env' d⟩
+
+theorem allLoadedOnTheirOwn_resolved {W : World} {E : EnvWorld C} {pre} (hR : IncludedBranchWorld W pre)
+    {L : String} {env : Env} {chain : List String} :
+    ∀ {cfgs : List IncCfg} {ims : List KVs}, AllLoadedOnTheirOwn W E L env chain cfgs ims →
+      ∀ im ∈ ims, ResolvedAsOnItsOwn env im
+  | _, _, .nil => by intro im hm; cases hm
+  | _, _, .cons h t => by
+    intro im hm
+    cases hm with
+    | head => exact loadedOnItsOwn_resolved hR h
+    | tail _ hm' => exact allLoadedOnTheirOwn_resolved hR t im hm'
+
+/-- **include_property_resolved**: `include_property`, plus: every included model that is pasted equals — in services,
+volumes, networks, secrets — the included project loaded on its own with the environment the property describes, and the
+including model's own final `ResolveEnvironment` (environment `env`) leaves those secrets and services as they are;
+its configs are as written (resolved by the including model only: `included_config_eq_paste_partial`) -/
+theorem include_property_resolved (W : World) (E : EnvWorld C) (hW : W.envFromFile = getEnvFromFile E)
+    (pre : String → String → List String → Env → List String → Out KVs) (hR : IncludedBranchWorld W pre)
+    (wd L : String) (hL : Include.isAbs L = true) (hb : baseDir wd L = L) (env : Env) (chain : List String)
+    (model r : KVs) (h : applyInclude W wd L env chain model = .ok r) :
+    ∃ cfgs ims, loadIncludeConfig (lookup "include" model) = .ok cfgs ∧
+      AllLoadedOnTheirOwn W E L env chain cfgs ims ∧
+      (∀ im ∈ ims, ResolvedAsOnItsOwn env im) ∧
+      (∀ k, k ∈ resourceKinds → ∀ n, resourceOf r k n = pastedResource model ims k n) ∧
+      (∀ k, k ∉ resourceKinds → k ≠ "include" → lookup k r = lookup k model) ∧
+      lookup "include" r = none := by
+  obtain ⟨cfgs, ims, hc, ha, hp, ho, hi⟩ := include_property W E hW wd L hL hb env chain model r h
+  exact ⟨cfgs, ims, hc, ha, allLoadedOnTheirOwn_resolved hR ha, hp, ho, hi⟩
+
+/-- non-vacuity: a world whose sub-load resolves a fixed model with the environment it is given is an
+`IncludedBranchWorld` -/
+example :
+    let d : KVs := [("secrets", .map [("s", .map [("environment", .str "V")])])]
+    let W : World :=
+      { cwd := "/cwd", isDir := fun _ => false, isFile := fun _ => false, envFromFile := fun _ _ => .ok [],
+        loadModel := fun _ _ _ env' _ => .ok (resolveModelEnv true env' d) }
+    IncludedBranchWorld W (fun _ _ _ _ _ => .ok d) := by
+  intro d W relwd pd paths env' chain
+  rfl
 
 end CV.Include
